@@ -227,7 +227,11 @@ func checkC07(c C07Case, o *Obs) error {
 			for _, it := range items {
 				if it.Err != nil {
 					nerr++
-					continue
+					// a record handed out together with the error is a delivered record as well
+					if it.WithErr == "" {
+						continue
+					}
+					it.Rec = it.WithErr
 				}
 				if j >= len(D) || it.Rec != D[j].Rec {
 					want := "<nothing: the fault-free decode has no more records>"
@@ -301,15 +305,15 @@ func checkWriteFaults(c C07Case, o *Obs) error {
 		}
 	}
 	for _, k := range limits {
-		for _, short := range []bool{false, true} {
+		for mode, short := range []bool{false, true, false} {
 			runs++
-			lw := &fault.LimitedWriter{Limit: k, Short: short}
+			lw := &fault.LimitedWriter{Limit: k, Short: short, Full: mode == 2}
 			var werr error
 			if p := catch(func() { werr = write(lw) }); p != nil {
 				return fmt.Errorf("%s: Write panicked when the writer fails after %d of %d bytes: %v", c.Format, k, total, p)
 			}
 			if k < total && werr == nil {
-				return fmt.Errorf("%s: Write returned nil although the writer failed after %d of %d bytes (short-write reporting: %v); text %s", c.Format, k, total, short, gen.Abbrev(healthy.Bytes()))
+				return fmt.Errorf("%s: Write returned nil although the writer failed after %d of %d bytes (the failing call reports: %s); text %s", c.Format, k, total, []string{"0 bytes", "the bytes it accepted", "all bytes, with the error"}[mode], gen.Abbrev(healthy.Bytes()))
 			}
 			if k >= total && werr != nil {
 				return fmt.Errorf("%s: Write returned %v although the writer accepted all %d bytes (limit %d)", c.Format, werr, total, k)
